@@ -31,7 +31,8 @@ EXTENDS Naturals, Sequences, FiniteSets
 
 U32MAX == 1073741824
 NoPred == "none"
-Chg    == {"none", "target", "function", "args", "pred", "salt"}
+\* ("swap": predecessor and salt - two fields of the same type - exchanged, also with one of them all-zero)
+Chg    == {"none", "target", "function", "args", "pred", "salt", "swap"}
 
 SatAdd(a, b) == IF a + b > U32MAX THEN U32MAX ELSE a + b
 
